@@ -294,6 +294,12 @@ def gen_op(rng, pool, systems=None):
     if r < 0.45:
         return ('addedge', i, gen_key(rng, m), gen_key(rng, m))
     if r < 0.60:
+        if m is not None and rng.random() < 0.2:
+            # the same atoms again with other parameters / version: several candidates for remove_matching_interaction
+            ex = [(t, x) for t in m.interactions for x in m.interactions[t]]
+            if ex:
+                t, x = rng.choice(ex)
+                return ('addinter', i, t, list(x.atoms), rng.choice(['p', 'q', 'r']), rng.choice([0, 0, 1, 2]))
         return ('addinter', i, rng.choice(TYPES), [gen_key(rng, m) for _ in range(rng.randint(1, 3))], rng.choice(['p', 'q', 'r']), rng.choice([0, 0, 1]))
     if r < 0.68:
         return ('addorrep', i, rng.choice(TYPES), [gen_key(rng, m) for _ in range(rng.randint(1, 3))], rng.choice(['p', 'q', 'r']), rng.choice([0, 0, 1]),
@@ -533,11 +539,22 @@ def run_sequence(ops):
                     if len(gone) != 1 or gone[0][0] != op[2] or gone[0][1] != list(op[3]) or (op[4] is not None and gone[0][2] != op[4]) \
                             or (op[5] is not None and gone[0][3] != op[5]):
                         errs.append('step %d rmmatch: removed %r, which does not match the template' % (step, gone))
-                if out == 'valueerror' and op[6] is None:
-                    hits = [x for x in b[2] if x[0] == op[2] and x[1] == list(op[3]) and (op[4] is None or x[2] == op[4])
-                            and (op[5] is None or x[3] == op[5])]
-                    if hits:
-                        errs.append('step %d rmmatch: ValueError although %r matches' % (step, hits[0]))
+                # the FIRST interaction of the type that matches the template goes, nothing else
+                rows = {r[0]: r for r in b[0]}
+
+                def tmatch(x):
+                    if x[0] != op[2] or x[1] != list(op[3]) or (op[4] is not None and x[2] != op[4]) or (op[5] is not None and x[3] != op[5]):
+                        return False
+                    for atom, t in zip(x[1], op[6] or []):
+                        if any(val is not None and rows[atom][1 + pos] != val for pos, val in enumerate(t)):
+                            return False
+                    return True
+                hits = [k for k, x in enumerate(b[2]) if tmatch(x)]
+                if out == 'valueerror' and hits:
+                    errs.append('step %d rmmatch: ValueError although %r matches' % (step, b[2][hits[0]]))
+                if out == 'ok' and (not hits or a[2] != b[2][:hits[0]] + b[2][hits[0] + 1:]):
+                    errs.append('step %d rmmatch: the first matching interaction (%s) is not the one that was removed'
+                                % (step, b[2][hits[0]] if hits else None))
         # theorem merge_outcome: a merge fails only on an nrexcl mismatch, with ValueError
         if op[0] == 'merge' and out != 'badindex':
             a0, b0 = before[op[1]], before[op[2]]
